@@ -585,7 +585,14 @@ def r15_5(ctx, repo):
     fn = repo.method(cls, 'sample')
     construct = cls + '.sample'
     counts, fills = [], []
-    for x in ast.walk(fn):
+    # the table may be assembled in sample() or in a helper of the class
+    nodes = [x for m_ in repo.cls(cls).methods.values()
+             for x in ast.walk(m_)]
+    owner = {}
+    for mname_, m_ in repo.cls(cls).methods.items():
+        for x in ast.walk(m_):
+            owner[id(x)] = m_
+    for x in nodes:
         if isinstance(x, ast.Call) and U(x.func) == 'len' and x.args \
                 and isinstance(x.args[0], ast.Attribute) \
                 and x.args[0].attr == 'draw':
@@ -605,7 +612,7 @@ def r15_5(ctx, repo):
     drop = lambda cs: any(c.startswith('dropna(') for c in cs)  # noqa: E731
     fill_drop = {drop(cs) for _, cs in fills}
     for node, cs in counts:
-        where = repo.loc(node, cls, fn.name)
+        where = repo.loc(node, cls, owner.get(id(node), fn).name)
         if fill_drop == {drop(cs)}:
             ctx.ok(rule, where, construct,
                    'the draws are counted %s, like the columns that fill '
